@@ -627,13 +627,24 @@ func getMatchWritesBeforeRead(d *ast.FuncDecl) bool {
 				written = true
 				continue
 			}
-			// before the write: no use of params, no way to go on to the next segment or to succeed
-			if mentions(s, "params") || mentions(s, "paramsIterator") {
-				return false
-			}
+			// before the write: no slot of params is read or written, paramsIterator is not changed
+			// (bounds guards like `if paramsIterator >= len(params) { return false }` are fine), and
+			// there is no way to go on to the next segment or to succeed
 			bad := false
 			ast.Inspect(s, func(n ast.Node) bool {
 				switch x := n.(type) {
+				case *ast.IndexExpr:
+					if id, ok := x.X.(*ast.Ident); ok && id.Name == "params" {
+						bad = true
+					}
+				case *ast.AssignStmt:
+					for _, l := range x.Lhs {
+						if mentions(l, "paramsIterator") || mentions(l, "params") {
+							bad = true
+						}
+					}
+				case *ast.IncDecStmt:
+					bad = bad || mentions(x.X, "paramsIterator")
 				case *ast.BranchStmt:
 					bad = true
 				case *ast.ReturnStmt:
